@@ -191,37 +191,79 @@ func checkC06(w *World, r *Report) {
 			r.Bad("C06.outflows", construct, pos, "cannot identify the amount of the outgoing transfer")
 			continue
 		}
-		// (a) withdraw: amount is an accumulator of CalculateWithdrawable results
-		if phi, isPhi := am.(*ssa.Phi); isPhi {
-			good := false
-			for _, e := range phi.Edges {
-				if c, ok := e.(*ssa.Call); ok {
-					for _, a := range c.Common().Args {
-						if _, is := isCallTo(a, "keeper.CalculateWithdrawable"); is && accumulatorOf(phi, a) {
-							good = true
-						}
-					}
-				}
-			}
-			r.Check(good, "C06.outflows", construct+": amount = sum of CalculateWithdrawable results", pos, "accumulator of the oracle's per-pool results", "the amount paid out is not the sum of the oracle's results")
-			continue
-		}
-		// (b) new vesting account: dominated by the success edge of the account creation for the same address
 		var rec ssa.Value
 		for _, a := range s.Args() {
 			if typeString(a.Type()) == "github.com/cosmos/cosmos-sdk/types.AccAddress" {
 				rec = a
 			}
 		}
-		good := false
-		for _, s2 := range cg.Sites[fn] {
-			if !calleeIs(s2, "x/cfevesting/keeper.Keeper.newContinuousVestingAccount") {
-				continue
+		// decided where the amount is computed: a paying helper that is handed the amount (and the recipient) is decided
+		// at each of its call sites, two levels up at most
+		var decide func(fn *ssa.Function, at ssa.Instruction, am, rec ssa.Value, depth int) (good bool, withdraw bool)
+		decide = func(fn *ssa.Function, at ssa.Instruction, am, rec ssa.Value, depth int) (bool, bool) {
+			am = normLocal(am)
+			// the creation of the recipient in this very function decides it whatever the amount is
+			for _, s2 := range cg.Sites[fn] {
+				if !calleeIs(s2, "x/cfevesting/keeper.Keeper.newContinuousVestingAccount") {
+					continue
+				}
+				a2 := s2.Args()
+				if len(a2) > 1 && a2[1] == rec && OnSuccessEdge(fn, at, siteValue(s2)) {
+					return true, false
+				}
 			}
-			a2 := s2.Args()
-			if len(a2) > 1 && a2[1] == rec && OnSuccessEdge(fn, s.Instr, siteValue(s2)) {
-				good = true
+			if prm, isPrm := am.(*ssa.Parameter); isPrm && depth < 2 && prm.Parent() == fn {
+				i := paramIndex(fn, prm)
+				callers := cg.Callers[fn]
+				if i < 0 || len(callers) == 0 {
+					return false, false
+				}
+				allGood, anyWithdraw := true, false
+				for _, cs := range callers {
+					if cs.Static != fn || cs.Invoke || i >= len(cs.Common().Args) {
+						return false, false
+					}
+					rec2 := rec
+					if rp, isRP := normLocal(rec).(*ssa.Parameter); isRP && rp.Parent() == fn {
+						if j := paramIndex(fn, rp); j >= 0 && j < len(cs.Common().Args) {
+							rec2 = cs.Common().Args[j]
+						}
+					}
+					g, wd := decide(cs.Caller, cs.Instr, cs.Common().Args[i], rec2, depth+1)
+					allGood = allGood && g
+					anyWithdraw = anyWithdraw || wd
+				}
+				return allGood, anyWithdraw
 			}
+			// (a) withdraw: amount is an accumulator of CalculateWithdrawable results
+			if phi, isPhi := am.(*ssa.Phi); isPhi {
+				for _, e := range phi.Edges {
+					if c, ok := e.(*ssa.Call); ok {
+						for _, a := range c.Common().Args {
+							if _, is := isCallTo(a, "keeper.CalculateWithdrawable"); is && accumulatorOf(phi, a) {
+								return true, true
+							}
+						}
+					}
+				}
+				return false, true
+			}
+			// (b) new vesting account: dominated by the success edge of the account creation for the same address
+			for _, s2 := range cg.Sites[fn] {
+				if !calleeIs(s2, "x/cfevesting/keeper.Keeper.newContinuousVestingAccount") {
+					continue
+				}
+				a2 := s2.Args()
+				if len(a2) > 1 && a2[1] == rec && OnSuccessEdge(fn, at, siteValue(s2)) {
+					return true, false
+				}
+			}
+			return false, false
+		}
+		good, isWithdraw := decide(fn, s.Instr, am, rec, 0)
+		if isWithdraw {
+			r.Check(good, "C06.outflows", construct+": amount = sum of CalculateWithdrawable results", pos, "accumulator of the oracle's per-pool results", "the amount paid out is not the sum of the oracle's results")
+			continue
 		}
 		r.Check(good, "C06.outflows", construct+": recipient created as a continuous vesting account on the same path", pos,
 			"dominated by the success edge of newContinuousVestingAccount for the same address", "coins can leave the module account to an address that was not created as a vesting account on this path")
